@@ -300,7 +300,12 @@ WHOLE_THM = {
            "error or the same API, API text, stubs and write log; only the warning list may differ).",
     "C16": "Theorems/C16b: tool_second_run_partial (end to end: a second run into the directory the first run filled computes the "
            "same result and leaves every file unchanged; for coherent foreign class paths), getApi_ignores_output_dir.",
-    "C18": "Theorems/C18b: alias_table_monotone, alias_lookup_local (aliases[name] changes only through expressions that "
+    "C18": "Theorems/C18a (analyser half, a two-run simulation through EVERY function of the analyser, Proofs/TableLocal): "
+           "walk_module_blind_to_tables, module_record_local, walk_modules_blind_to_tables - the walk of a module, run from a state "
+           "and from the same state with ALL tables of the API object replaced by arbitrary contents, ends with the same error or "
+           "the same declaration stack (the Module record under construction), docstring cache, type-variable set, warning log "
+           "and re-export map: the alias table, the re-export map and the docstring tree are the only cross-module channels. "
+           "Theorems/C18b: alias_table_monotone, alias_lookup_local (aliases[name] changes only through expressions that "
            "contribute under that short name), alias_table_ignores_skipped (expressions that are no alias candidates leave the "
            "table - and with C08b.analysis_reads_alias_sets the analysis of every other module - unchanged), counterexamples "
            "same_short_name_interferes, substring_package_test.",
@@ -312,6 +317,11 @@ COMPOSED = {
     "C06": " COMPOSITION (Theorems/C06b): def_to_stub_parameters (from the argument list of a def through parseParameters and "
            "createParameterString: exactly the non-receiver arguments, in source order, under their converted, escaped names, "
            "annotated iff the name changed).",
+    "C13": " COMPOSITION (Theorems/C13b): function_record, docstring_to_comment (the description-only comment of an element "
+           "consists, line for line, of the lines of the description the parser extracted from the element's OWN docstring node), "
+           "same_docstring_same_comment.",
+    "C04": " WHOLE TOOL (Theorems/C04b): moduleLog_top, tool_private_not_top_level (in a completed run a function or class the "
+           "analysis marked private is never a top-level entry of a module's emission log).",
     "C07": " COMPOSITION (Theorems/C07b): annotated_none_stub (-> None: one API result, no result in the stub), "
            "annotated_single_api / annotated_single_stub (-> T: exactly one result result_1 whose text is the specified text of "
            "the specified mapping of the mypy type).",
